@@ -103,6 +103,26 @@ def init_rule(chk, prog):
                         if y.k == 'Assign' and strip(y.c[0]).k == 'Index' and canon(strip(y.c[0]).c[0], ids=False) == arr and strip(y.c[1]).k in ('Int', 'Float', 'Ref'):
                             ok = True
             inst = '%s:%s' % (nm, arr)
+            # the filled extent must be the whole region that was carved out for the array:  *next = *arr + len;  fill(*arr, count, v)  ->  count == len
+            if ok:
+                def factors(e):
+                    e = strip(e)
+                    if e.k == 'Binary' and e.a['op'] == '*':
+                        return factors(e.c[0]) + factors(e.c[1])
+                    return [canon(e, ids=False)]
+                ln = cnt = None
+                for x in f.body.walk():
+                    if x.k == 'Assign' and x.a['op'] == '=':
+                        r = strip(x.c[1])
+                        if r.k == 'Binary' and r.a['op'] == '+' and canon(r.c[0], ids=False) == arr:
+                            ln = r.c[1]
+                    if x.k == 'Call' and callee_name(x) in ('ifill', 'sfill', 'dfill', 'cfill', 'zfill') and len(x.c) > 2 and canon(x.c[1], ids=False) == arr:
+                        cnt = x.c[2]
+                if ln is not None and cnt is not None and sorted(factors(ln)) != sorted(factors(cnt)):
+                    chk.violate(cid, inst + ':extent', loc(f, cnt), nm,
+                                '%s carves %s element(s) out of the work area for %s but initialises %s of them: the rest keeps whatever the memory held before '
+                                '(or the fill runs into the next array)' % (nm, canon(ln, ids=False), arr, canon(cnt, ids=False)))
+                    continue
             if ok:
                 chk.ok(cid, inst, sample=why)
             else:
